@@ -38,3 +38,25 @@ Proof.
   exists vs. exact H.
 Qed.
 Print Assumptions C12_walk_total.
+
+(** ** the parser's fuel is never exhausted *)
+From PQL Require Import Proofs.ParserFuel.
+
+(** The recursive-descent model runs on fuel, one unit per call level; the call depth is bounded
+    by 4 x tokens + 6 (shown by induction over every production, with the fact that a production
+    never returns more tokens than it was given and that an operator passing the precedence
+    threshold is consumed), so the fuel Parse starts with, 6 x tokens + 12, is never used up:
+    for every source, the model of Parse returns a tree or errors, never "out of fuel".  The
+    statement, list and column loops run on a counter above the number of tokens and each
+    iteration consumes one. *)
+Theorem C12_parse_never_out_of_fuel : forall s, parse s <> ParseOutOfFuel.
+Proof. exact parse_never_out_of_fuel. Qed.
+Print Assumptions C12_parse_never_out_of_fuel.
+
+Theorem C12_expr_depth_bound : forall srclen f ts x rest e, 4 * length ts + 4 <= f -> p_expr srclen f ts = (x, rest, e) -> nofuel e.
+Proof. exact p_expr_nofuel. Qed.
+Print Assumptions C12_expr_depth_bound.
+
+Theorem C12_compile_never_out_of_fuel : forall params s, compile params s <> CFuel.
+Proof. exact compile_never_out_of_fuel. Qed.
+Print Assumptions C12_compile_never_out_of_fuel.
